@@ -6,7 +6,7 @@
  * a hit yields a concrete length, which is then replayed NATIVELY through the ordinary round-trip / conformance
  * harness compiled with that length.  Conversions to 8-bit types are ignored here (explicit byte extraction casts
  * are everywhere; 8-bit counters wrap inside the ordinary shape windows).
- * -DAPI=1 AEAD encrypt+decrypt (KS, MODE), 2 hash update, 3 hmac, 4 hkdf expand, 5 pbkdf2, 6 prng generate, 7 clean */
+ * -DAPI=1 AEAD encrypt+decrypt (KS, MODE), 2 hash update, 3 hmac, 4 hkdf expand, 5 pbkdf2, 6 prng generate, 7 clean, 8 check_tag */
 #include "verif.h"
 #include "TinyJAMBU.h"
 #define CAT5_(a,b,c,d,e) a##b##c##d##e
@@ -36,6 +36,9 @@ int main(void)
     tinyjambu_pbkdf2(a, n, small, 8, small + 8, 8, 2);
 #elif API == 6
     { static tinyjambu_prng_state_t st; tinyjambu_prng_generate(&st, a, n); tinyjambu_prng_feed(&st, b, n); }
+#elif API == 8
+    { extern int tinyjambu_aead_check_tag(unsigned char *, size_t, const unsigned char *, const unsigned char *, size_t);
+      (void)tinyjambu_aead_check_tag(a, n, small, small + 8, 8); }
 #else
     tinyjambu_clean(a, (unsigned)n);
 #endif
